@@ -22,6 +22,7 @@ UNITS = [
     "src/celeritas/optical/detail/CerenkovOffloadAction.cc",
     "src/celeritas/optical/detail/ScintOffloadAction.cc",
     "src/celeritas/optical/detail/CerenkovGeneratorAction.cc",
+    "src/celeritas/optical/detail/ScintGeneratorAction.cc",
 ]
 O = C + "optical::"
 
@@ -131,3 +132,83 @@ def run(db, cx):
                   short(f.loc), path=f.path_locs(p_),
                   why="a stale request from the previous step would generate photons for a step "
                       "that is below threshold")
+
+    unit_vectors(db, cx)
+
+
+UNIT_CTORS = {C + "make_unit_vector", C + "from_spherical", C + "rotate"}
+
+
+def _unit_by_construction(db, f, ev_like):
+    """The value is produced by a unit-vector constructor and not post-processed by vector
+    arithmetic; an immediately invoked lambda is judged by its return statements."""
+    calls = set(ev_like.get("calls", []))
+    vec_ops = [c for c in calls if c.startswith(C + "operator") or c in (C + "axpy",)]
+    if calls & UNIT_CTORS and not vec_ops:
+        return True, "built by %s" % ", ".join(sorted(x.split("::")[-1] for x in calls & UNIT_CTORS))
+    lam = [c for c in calls if "(lambda" in c]
+    if lam and not (calls - set(lam)):
+        oks = []
+        line = ":".join((ev_like.get("loc") or "").split(":")[:2])
+        here = [l for (_b, _i, l) in f.events("lambda") if ":".join(l["loc"].split(":")[:2]) == line]
+        for l in here:
+            for g in db.get(l.get("callee", "")):
+                if l.get("inst") and g.inst != l["inst"] and f.inst not in g.inst:
+                    continue
+                for (_b, _i, r) in g.events("return"):
+                    oks.append(_unit_by_construction(db, g, r)[0])
+        if oks and all(oks):
+            return True, "immediately invoked lambda returning a unit-vector constructor"
+    return False, "`%s` is not a unit-vector constructor" % (ev_like.get("rhs") or ev_like.get("t"))
+
+
+def unit_vectors(db, cx):
+    """C20.4: unit direction / polarisation and the rotation frame are unit vectors *by
+    construction*: every write of TrackInitializer::direction / polarization in the photon
+    generators, and every axis handed to rotate(), is the direct result of make_unit_vector,
+    from_spherical or rotate (rotate() itself only has a debug assertion on its axis)."""
+    import re
+    gens = [f for n_ in db.find(r"^celeritas::optical::(Cerenkov|Scintillation)Generator::operator\(\)$")
+            for f in db.get(n_)]
+    cx.floor("optical photon generators", len(gens), 2)
+    TI = O + "TrackInitializer::"
+    for f in gens:
+        cls = f.name.rsplit("::", 1)[0]
+        for (b, i, ev) in f.events("write"):
+            leaf = path_leaf(ev.get("path"))
+            if leaf not in (TI + "direction", TI + "polarization"):
+                continue
+            ok, d = _unit_by_construction(db, f, ev)
+            cx.ob("C20.4-unit-vectors", "%s: photon %s is a unit vector by construction" % (
+                cls.split("::")[-1], leaf.split("::")[-1]), ok, d, short(ev["loc"]),
+                why="the photon's direction and polarisation must be unit vectors")
+        for (b, i, ev) in f.calls(C + "rotate"):
+            for k, a in enumerate(ev.get("args", [])[:2]):
+                what = "rotated vector" if k == 0 else "rotation axis"
+                p = a.get("path")
+                if a.get("calls"):
+                    ok, d = _unit_by_construction(db, f, a)
+                elif p and p["root"] == "this" and len(p["chain"]) == 1 and p["chain"][0].startswith("f:"):
+                    mem = p["chain"][0][2:]
+                    ws = []
+                    for n_ in db.find("^" + re.escape(cls) + "::"):
+                        for g in db.get(n_):
+                            for (_b, _i, w) in g.events("write"):
+                                if path_leaf(w.get("path")) == mem:
+                                    ws.append((g, w))
+                    res = [_unit_by_construction(db, g, w) for g, w in ws]
+                    ok = bool(res) and all(r[0] for r in res)
+                    d = "; ".join(r[1] for r in res) or "no write of %s found" % mem
+                elif p and p["root"].startswith("l:"):
+                    defs = f.reaching_defs(p["root"][2:], (b, i))
+                    res = [_unit_by_construction(db, f, dd) for (_b, _i, dd) in defs]
+                    ok = bool(res) and all(r[0] for r in res)
+                    d = "; ".join(r[1] for r in res)
+                else:
+                    ok, d = False, "cannot trace `%s`" % a.get("t")
+                cx.ob("C20.4-unit-vectors", "%s: %s `%s` of rotate() is a unit vector by construction [@%s]"
+                      % (cls.split("::")[-1], what, a.get("t", "")[:40], short(ev["loc"]).split(":")[-1]),
+                      ok, d, short(ev["loc"]),
+                      why="rotate(v, axis) builds an orthonormal frame from `axis` only if it is a unit "
+                          "vector (debug assertion only): with a shorter axis the photon leaves the "
+                          "Cerenkov cone and its polarisation is no longer perpendicular to it")
